@@ -293,6 +293,30 @@ def mk_formula(case):
     """The input CNF of a case (public constructors only)."""
     from cnfgen.formula.cnf import CNF
     nv = case['nv']
+    if case.get('named') == 'mixed':
+        # anonymous variables (known only through a raised count) before,
+        # between and after named groups; layout bit 0: a gap between the
+        # block and the single variable
+        F = CNF()
+        layout = case.get('layout', 0)
+        left = nv
+        if left >= 1:
+            F.update_variable_number(1)
+            left -= 1
+        if left >= 2:
+            F.new_block(2, label='y_{}')
+            left -= 2
+        if left >= 2 and layout % 2 == 1:
+            F.update_variable_number(F.number_of_variables() + 1)
+            left -= 1
+        if left >= 1:
+            F.new_variable('z')
+            left -= 1
+        if left >= 1:
+            F.update_variable_number(F.number_of_variables() + left)
+        for cl in case['cls']:
+            F.add_clause(list(cl))
+        return F
     if case.get('named'):
         # named variables, labels with braces and format-like fragments
         F = CNF()
@@ -617,6 +641,14 @@ def plan(tier, seed):
             if (2 * k * nv if T == 'lift' else (k or 3) * nv) <= 16:
                 jobs.append(('X', {'T': T, 'k': k, 'c': c, 'nv': nv, 'named': True,
                                    'cls': [list(x) for x in cls]}))
+    # ---- anonymous variables before / between / after named groups ---------
+    for nv, cls in [(2, [(1, -2), (2,)]), (3, [(1, 2), (-1, -3)]), (4, [(1, -2, 3), (-3, 4), ()]),
+                    (5, [(1, 5), (-2, -3, 4)]), (6, [(1, -6), (2, 5)])]:
+        for layout in (0, 1):
+            for (T, k, c) in subst_specs(nv, 2, kmax=2):
+                if (2 * k * nv if T == 'lift' else (k or 3) * nv) <= 16:
+                    jobs.append(('X', {'T': T, 'k': k, 'c': c, 'nv': nv, 'named': 'mixed',
+                                       'layout': layout, 'cls': [list(x) for x in cls]}))
     # ---- arguments outside the domain --------------------------------------
     base = {'nv': 2, 'cls': [[1, -2], [2]]}
     for k in (0, -1, -2):
